@@ -34,7 +34,7 @@ LEVEL_TEXT = ('Each configuration is built with the real coordinate API and ever
               'universe; hash-seed independence is decided on a finite seed set in child interpreters.')
 LEVEL_NOTE = ('Trusted: mc/gf2.py. Not covered: sizes above the bound, user codes with more than 3 qubits / 2 '
               'stabilizers, hash seeds outside the enumerated set.')
-RULE = ('A1: every (class, size, deformation) in the C01 domain; A2: every pair of non-identity Pauli supports on '
+RULE = ('A1: every (class, size, deformation) in the C01 domain (incl. the thin lattices with a side of length 1 and Color666PlanarCode with L_y != L_x); A2: every pair of non-identity Pauli supports on '
         'n=2 (225) and n=3 (3969 in thorough; quick: all 63 single stabilizers and a complete 63x63 sweep sharded '
         'over fewer coordinate shapes) for each coordinate shape; A3: one child interpreter per PYTHONHASHSEED. '
         'distinct non-trivial = distinct configurations with at least one non-empty generator; A1 also on used '
@@ -59,7 +59,11 @@ def cases(tier, seed):
     b = BOUNDS[tier]
     out = [dict(c, part='A1') for c in F.configs(b['max_n'], F.CLASSES_2D, l_max=b['l_max_2d'], used=True)]
     out += [dict(c, part='A1') for c in F.configs(b['max_n'], F.CLASSES_3D, l_max=b['l_max_3d'], used=True)]
-    lib = list(out)
+    # thin lattices (a side of length 1) the open-boundary classes accept, and Color666PlanarCode with
+    # L_y != L_x (L_y is ignored): valid codes on the reference tree, outside the DESIGN §3 table
+    out += [dict(c, part='A1') for c in F.thin_configs(b['max_n'], l_max=4, deformed=True)]
+    out += [dict(c, part='A1') for c in F.ignored_parameter_configs(b['max_n'], l_max=4)]
+    lib = [c for c in out if min(c['size']) > 1 and not (c['cls'] == 'Color666PlanarCode' and c['size'][0] != c['size'][1])]
     out += [{'part': 'session', 'cfgs': seq} for seq in session.interleave_by_size(lib)]
     out += [{'part': 'session', 'cfgs': seq} for seq in session.across_classes(lib)]
     for sh in range(b['user_shapes']):
